@@ -15,7 +15,8 @@ FILES = ('core/utils/thread_local.py', 'core/symbolic/flags.py', 'core/utils/con
 
 
 class Boom(Exception):
-  pass
+  """The exception blocks are left by. It carries a `cause` attribute that is not an exception (application errors do)."""
+  cause = 'disk full'
 
 
 class Halt(BaseException):
@@ -35,6 +36,10 @@ class DB:
 class DC:
   def __init__(self):
     pass
+
+
+class DSub(DA):
+  """Detoured together with its base class."""
 
 
 _PROBE = [0]
@@ -88,15 +93,15 @@ def detour_model(stack):
       if src in effective:
         continue
       effective[src] = effective.get(dest, dest)
-  return effective.get('DA', 'DA')
+  return (effective.get('DA', 'DA'), effective.get('DSub', 'DSub'))
 
 
 def detour_observe():
-  return type(DA()).__name__
+  return (_safe(lambda: type(DA()).__name__), _safe(lambda: type(DSub()).__name__))
 
 
 def detour_enter(arg):
-  table = {'DA': DA, 'DB': DB, 'DC': DC}
+  table = {'DA': DA, 'DB': DB, 'DC': DC, 'DSub': DSub}
   return pg.detour([(table[s], table[d]) for s, d in arg])
 
 
@@ -109,6 +114,29 @@ def _tagged(tag):
   fn = lambda h: tag
   fn.tag = tag
   return fn
+
+
+class CtxObj(pg.ContextualObject):
+  x: int = 1
+  y: int = 0
+
+
+_CTX = [None, 0]
+
+
+def ctxobj_reset():
+  _CTX[0] = CtxObj()
+
+
+def ctxobj_observe():
+  """The value seen through the object after an ordinary rebind of ANOTHER field inside the scope."""
+  o = _CTX[0]
+  _CTX[1] += 1
+  try:
+    o.rebind(y=_CTX[1])
+  except Exception:  # pylint: disable=broad-except
+    pass             # another scope of the program (as_sealed) may refuse the write: the read below is what is observed
+  return o.x
 
 
 def timeit_enter(name):
@@ -214,11 +242,13 @@ def _catalogue():
       Mgr('view_options(merged)', lambda a: pg.view_options(**{k: (dict(v) if isinstance(v, tuple) else v) for k, v in a}),
           ((('extra_flags', (('a', 1),)),), (('extra_flags', (('b', 2),)), ('collapse_level', 2)), (('extra_flags', (('a', 3),)),)),
           view_merged_observe, view_merged_model, ()),
+      Mgr('object.override', lambda a: _CTX[0].override(x=a), (10, 20), ctxobj_observe, innermost(1), 1),
       Mgr('coding.context', lambda a: pg.coding.context(**dict(a)), ((('a', 1),), (('a', 2),), (('b', 3),)),
           lambda: tuple(sorted(pg.coding.get_context().items())), merge_model, ()),
       Mgr('coding.permission', pg.coding.permission, (P.ASSIGN, P.CALL | P.ASSIGN, P(0)), pg.coding.get_permission,
           outermost(None), None),
-      Mgr('detour', detour_enter, ((('DA', 'DB'),), (('DB', 'DC'),), (('DA', 'DC'),)), detour_observe, detour_model, 'DA'),
+      Mgr('detour', detour_enter, ((('DA', 'DB'),), (('DB', 'DC'),), (('DA', 'DC'),), (('DA', 'DB'), ('DSub', 'DC'))), detour_observe,
+          detour_model, ('DA', 'DSub')),
       Mgr('dynamic_evaluate(per_thread)', lambda a: pg.hyper.dynamic_evaluate(_tagged(a), per_thread=True), ('f1', 'f2'),
           dyn_observe, innermost('placeholder'), 'placeholder'),
       Mgr('timeit', timeit_enter, ('t1', 't2'), timeit_observe, timeit_model, ((), None)),
@@ -294,6 +324,7 @@ def parse_shape(shape):
 def execute(tree, assign, mgrs, rec, tr, label, check_model=True, observe=None):
   """Runs the program; returns the observation log. assign[i] = (mgr index, arg index, raises)."""
   log = []
+  ctxobj_reset()
   stacks = {m.stack_key: [] for m in mgrs}
   ok = True
   observe_all = observe or globals()['observe_all']
@@ -339,6 +370,10 @@ def execute(tree, assign, mgrs, rec, tr, label, check_model=True, observe=None):
             raise Boom()
       except (Boom, Halt):
         pass
+      except Exception as e:  # pylint: disable=broad-except
+        rec.viol(f'scope-raises:{type(e).__name__}/{m.name}', f'{label}: entering / leaving #{me} {m.name}({arg!r})'
+                 f'{" (block left by exception)" if raises else ""} raised {type(e).__name__}: {e}', tr)
+        ok = False
       finally:
         if stacks[m.stack_key] and stacks[m.stack_key][-1] is arg:
           stacks[m.stack_key].pop()
@@ -389,6 +424,9 @@ def seq_item(rec, item):
 
 def pw_item(rec, _):
   mgrs = process_wide()
+  # this thread has used (and left) a per-thread dynamic-evaluation scope before: later process-wide scopes still apply
+  with pg.hyper.dynamic_evaluate(_tagged('t0'), per_thread=True):
+    pass
   for k, m in enumerate(mgrs):
     for n in (1, 2):
       for shape in SHAPES[n]:
@@ -500,6 +538,76 @@ def _exec_with_points(prog, mgrs, s):
   return execute(parse_shape(prog[0]), thread_assign(prog, ms), ms, Rec(), None, 'thread', check_model=False, observe=obs)
 
 
+DYN_FILES = ('core/hyper/dynamic_evaluation.py',)
+
+
+def dyn_apply_item(rec, item):
+  """Two threads apply different decisions to ONE traced (per-thread) dynamic-evaluation context: each sees its own."""
+  prefix, bound, nested = item
+
+  def fun():
+    return pg.oneof([10, 20, 30]) + pg.oneof([1, 2, 3])
+
+  ctx = pg.hyper.trace(fun)
+  results = [None, None]
+
+  def body(i):
+    def run():
+      d = [2 * i, 2 - 2 * i]
+      if nested and i == 0:
+        # the same context applied again inside its own scope: the outer decisions come back afterwards
+        with ctx.apply(d):
+          a = pg.oneof([10, 20, 30])
+          with ctx.apply([1, 1]):
+            inner = fun()
+          b = pg.oneof([1, 2, 3])
+        results[i] = (a + b, inner)
+      else:
+        with ctx.apply(d):
+          results[i] = (fun(), None)
+    return run
+
+  s = sched.Scheduler([body(0), body(1)], prefix, DYN_FILES)
+  s.run()
+  rec.evals += 1
+  rec.trans += len(s.points)
+  tr = dict(kind='dyn-apply', prefix=s.choices()[:len(prefix)], nested=nested)
+  if s.divergence:
+    raise RuntimeError(f'schedule replay diverged: {s.divergence}')
+  want = [(10 + 3, 22 if nested else None), (30 + 1, None)]
+  ok = True
+  for i in (0, 1):
+    if s.errors[i] is not None:
+      rec.viol('dynamic-evaluation-context/thread-raises', f'schedule {[(k, c) for k, c in enumerate(s.choices()) if c]}: thread {i} '
+               f'raised {s.errors[i][0]}: {s.errors[i][1]}', tr)
+      ok = False
+    elif results[i] != want[i]:
+      rec.viol('dynamic-evaluation-context/decisions-of-another-thread', f'schedule {[(k, c) for k, c in enumerate(s.choices()) if c]}: '
+               f'thread {i} applied decisions {[2 * i, 2 - 2 * i]} and evaluated to {results[i]!r}, expected {want[i]!r}', tr)
+      ok = False
+  if ok:
+    rec.nt(('dyn-apply', nested, tuple((k, c) for k, c in enumerate(s.choices()) if c)))
+  return dict(succ=sched.successors(s, len(prefix), bound), ok=ok)
+
+
+def explore_dyn_apply(ctx, nested, bound, cap):
+  level, total = [[]], 0
+  for depth in range(bound + 1):
+    res = ctx.pmap(dyn_apply_item, [(p, bound, nested) for p in level], chunk=8)
+    total += len(level)
+    nxt = []
+    for _, r in res:
+      if r and r['ok']:
+        nxt += r['succ']
+    if depth == bound or not nxt:
+      break
+    if total + len(nxt) > cap:
+      ctx.cap(f'dyn-apply nested={nested}: cap {cap} reached')
+      nxt = nxt[:max(0, cap - total)]
+    level = nxt
+  return total
+
+
 def explore_threads(ctx, pi, pj, mode, bound, cap):
   level = [[]]
   total = 0
@@ -530,7 +638,8 @@ def run(ctx):
               'enter; process-wide managers: restoration only; (b) two threads running such programs: every interleaving at event '
               'granularity (enter / observe / exit) and every schedule with <= 1 preemption at statement granularity inside the '
               'thread-local, flags, contextual, detour, permission, formatting, timing and dynamic-evaluation modules: each thread observes '
-              'exactly what it observes alone; distinct_nontrivial = passing programs + distinct passing schedules')
+              'exactly what it observes alone; two threads applying different decisions to one traced dynamic-evaluation context '
+              '(also re-entered) under every schedule with <= 1 preemption; distinct_nontrivial = passing programs + distinct passing schedules')
   items = [(i, i, ctx.tier) for i in range(n)] + [(i, j, ctx.tier) for i in range(n) for j in range(i + 1, n)
                                                   if 'view_options' not in (CATALOGUE[i].name, CATALOGUE[j].name) or ctx.thorough]
   ctx.pmap(seq_item, items, chunk=1)
@@ -542,6 +651,8 @@ def run(ctx):
   for pi, pj in pairs:
     tot += explore_threads(ctx, pi, pj, 'events', 2 if not ctx.thorough else 3, 3000 if not ctx.thorough else 30000)
     tot += explore_threads(ctx, pi, pj, 'lines', 1 if not ctx.thorough else 2, 1500 if not ctx.thorough else 20000)
+  for nested in (False, True):
+    tot += explore_dyn_apply(ctx, nested, 1 if not ctx.thorough else 2, 1500 if not ctx.thorough else 30000)
   ctx.states += len(items) + tot
   ctx.note('thread_schedules', tot)
   ctx.sample(dict(shape='(X(X)(X))', program='as_sealed(True){ as_sealed(None)!; as_sealed(False) }', meaning='! = left by exception'))
@@ -556,5 +667,7 @@ def replay(rec, data):
     execute(parse_shape(data['shape']), [tuple(a) for a in data['assign']], CATALOGUE, rec, data, 'replay')
   elif k == 'process-wide':
     execute(parse_shape(data['shape']), [tuple(a) for a in data['assign']], process_wide(), rec, data, 'replay')
+  elif k == 'dyn-apply':
+    dyn_apply_item(rec, (data['prefix'], 0, data['nested']))
   else:
     thread_item(rec, (data['programs'][0], data['programs'][1], data['prefix'], 0, data['mode']))
